@@ -7,6 +7,7 @@ import asyncio
 import gc
 import heapq
 import logging
+import threading
 from asyncio import events
 
 from tornado.ioloop import IOLoop
@@ -23,10 +24,29 @@ class VLoop(asyncio.BaseEventLoop):
         self.progress = 0         # counts env events + iterations in which a non-spinner handle ran
         self.spin_seen = 0        # progress value when the spinners last re-evaluated
         self.iterations = 0
+        self._owner = threading.get_ident()
         self.set_exception_handler(self._on_error)
 
     def _on_error(self, loop, ctx):
         self.errors.append(ctx)
+
+    # --- the loop's own API is not thread-safe: only call_soon_threadsafe may come from another thread ----
+    def _foreign(self, what):
+        if threading.get_ident() != self._owner:
+            self.errors.append(dict(message="loop.%s() called from a thread other than the loop's own (only "
+                                            "call_soon_threadsafe / add_callback may be)" % what))
+
+    def call_soon(self, callback, *args, context=None):
+        self._foreign("call_soon")
+        return super().call_soon(callback, *args, context=context)
+
+    def call_at(self, when, callback, *args, context=None):
+        self._foreign("call_at")
+        return super().call_at(when, callback, *args, context=context)
+
+    def create_task(self, coro, **kw):
+        self._foreign("create_task")
+        return super().create_task(coro, **kw)
 
     # --- BaseEventLoop plumbing -------------------------------------------------
     def time(self):
